@@ -4,15 +4,19 @@ package main
 // lock package; after every op the number of entries in the per-key queue map is read through
 // the verif-only accessor lock.VerifQueueCount.
 //
-// ops:   case N | lock K long|short | lockh K (stopped between getQueue and enqueue) | go S | unlock S | expire S | cancel S | count
+// ops:   case N | lock K long|short|zero|neg|min | lockc K (context already cancelled when the caller reaches its select:
+//        reply names the branch the runtime took) | lockh K (stopped between getQueue and enqueue) | go S | unlock S | expire S | cancel S | count
+//        residual=<callers still queued although their Lock call returned an error>
 // reply: <event> entries=<map entries> queued=<callers queued over all keys of the case> holders=<max over keys of callers that acquired and did not release>
 
 import (
 	"bufio"
+	"context"
 	"fmt"
 	"math/rand"
 	"strconv"
 	"strings"
+	"sync"
 	"time"
 
 	"github.com/hydraide/hydraide/app/core/hydra/lock"
@@ -33,7 +37,11 @@ func genC28(rng *rand.Rand, tier string, w *bufio.Writer) {
 	// a caller that holds a pointer to a queue while the queue is emptied (pruning: it must retry on the key's new queue)
 	fmt.Fprintln(w, "case 2\nlock 7 long\nlockh 7\nunlock 1\ncount\ngo 2\ncount\nlock 7 long\nunlock 2\nunlock 3\ncount")
 	fmt.Fprintln(w, "case 1\nlock 5 short\nlock 5 long\nlock 6 long\nexpire 1\ncancel 2\nunlock 2\nunlock 3\ncount\nlock 5 long\nunlock 4\ncount")
-	for c := 3; c < cases; c++ {
+	// pre-cancelled contexts on free keys (either select branch must leave no residue: the keys must
+	// be lockable afterwards and the map must drain); TTLs ≤ 0
+	fmt.Fprintln(w, "case 3\nlockc 1\nlockc 1\nlockc 2\nlockc 1\nlockc 2\nlockc 3\nlock 1 long\nlock 2 long\nunlock 1\nunlock 2\nunlock 3\nunlock 4\nunlock 5\nunlock 6\nunlock 7\nunlock 8\ncount")
+	fmt.Fprintln(w, "case 4\nlock 1 zero\nlock 2 neg\nlock 3 min\nlock 1 long\nexpire 1\nexpire 2\nexpire 3\nunlock 4\ncount")
+	for c := 5; c < cases; c++ {
 		fmt.Fprintf(w, "case %d\n", c)
 		n := 4 + rng.Intn(maxLen)
 		nkeys := 1 + rng.Intn(12)
@@ -54,10 +62,14 @@ func genC28(rng *rand.Rand, tier string, w *bufio.Writer) {
 				ttl := "long"
 				sessions++
 				if rng.Intn(4) == 0 {
-					ttl = "short"
+					ttl = []string{"short", "short", "zero", "neg", "min"}[rng.Intn(5)]
 					short = append(short, sessions)
 				}
 				live = append(live, sessions)
+				if rng.Intn(8) == 0 {
+					fmt.Fprintf(w, "lockc %d\n", rng.Intn(nkeys))
+					break
+				}
 				fmt.Fprintf(w, "lock %d %s\n", rng.Intn(nkeys), ttl)
 			case r < 75 && len(live) > 0:
 				j := rng.Intn(len(live))
@@ -127,7 +139,15 @@ func runC28(in *bufio.Scanner, out *bufio.Writer) {
 				inflight++
 			}
 		}
-		return fmt.Sprintf("entries=%d queued=%d inflight=%d holders=%d", lock.VerifQueueCount(w.lk), queued, inflight, holders)
+		residual := 0
+		seen = map[string]bool{}
+		for _, s := range w.sess {
+			if !seen[s.key] {
+				seen[s.key] = true
+				residual += len(w.residual(s.key))
+			}
+		}
+		return fmt.Sprintf("entries=%d queued=%d inflight=%d holders=%d residual=%d", lock.VerifQueueCount(w.lk), queued, inflight, holders, residual)
 	}
 	get := func(f []string) *c14Sess {
 		if len(f) < 2 {
@@ -160,11 +180,53 @@ func runC28(in *bufio.Scanner, out *bufio.Writer) {
 				break
 			}
 			ttl, short := time.Hour, false
-			if f[2] == "short" {
+			switch f[2] {
+			case "short":
 				ttl, short = 3*time.Millisecond, true
+			case "zero":
+				ttl, short = 0, true
+			case "neg":
+				ttl, short = -time.Millisecond, true
+			case "min":
+				ttl, short = time.Duration(-1<<63), true
 			}
 			s, res := w.startLock(f[1], ttl, short, false)
 			fmt.Fprintf(out, "enq %d %s %s\n", s.n, res, tail())
+		case "lockc":
+			if len(f) < 2 {
+				fmt.Fprintln(out, "bad-op")
+				break
+			}
+			s, res := w.startLock(f[1], time.Hour, false, true)
+			if res == "held" {
+				s.cancelled = true
+				s.cancel()
+				s.held = false
+				w.release(w.holds, s.qid)
+				me := strconv.Itoa(s.n)
+				ev, ok := w.wait(func(e c14Event) bool {
+					return (e.id == s.qid && (e.name == "lock.acq" || e.name == "lock.cancel")) || (e.name == "sess.err" && e.raw == me)
+				})
+				switch {
+				case !ok:
+					res = "unexpected-" + ev.name
+				case ev.name == "lock.acq":
+					s.acquired = true
+					res = "acq"
+				case ev.name == "sess.err":
+					s.gone = true
+					w.returned(s)
+					res = "err"
+				default:
+					s.gone = true
+					res = "cancel"
+					if !w.returned(s) {
+						res = "unexpected-timeout"
+					}
+					res += w.settle(s.key)
+				}
+			}
+			fmt.Fprintf(out, "lockc %d %s %s\n", s.n, res, tail())
 		case "lockh":
 			if len(f) != 2 {
 				fmt.Fprintln(out, "bad-op")
@@ -244,4 +306,202 @@ func runC28(in *bufio.Scanner, out *bufio.Writer) {
 		}
 		out.Flush()
 	}
+}
+
+// ---------------------------------------------------------------------------------------------
+// Domain C28s: stress + trace inclusion for the queue MAP.  `gen` runs the real lock with several
+// goroutines over a handful of keys (so queues are emptied, retired and re-created all the time,
+// and callers regularly hold a pointer to a queue that is retired under them).  Every hook used
+// here fires under the mutex of the queue object it reports on:
+//
+//   enq K Q N G c=[…]   caller N (numbered in log order) was appended to queue object Q of key K,
+//                       G=1: granted at once; c = the queue's contents after the append
+//   deadq K Q           an enqueue was refused: Q has been retired
+//   dead K Q N          the removal of N emptied Q: Q is marked dead (logged BEFORE the map delete)
+//   rm K Q N F c=[…]    removal of N from Q (F=1 found); N=0: an id Q never issued
+//   count E D           at a quiescent point (all goroutines joined, no hook event while
+//                       counting): E entries in the map, D callers queued over all keys
+//
+// `run` answers `ok`; the Lean driver (mode=trace) answers `ok` iff the lock-map model can take the
+// step with the same observable values: the queue object used is the one the map holds for the key
+// (or a fresh one exactly when the key is unmapped), granted / found / contents / dead agree, and
+// the map size and queued total agree at every quiescent point.
+
+func init() { Register("C28s", Domain{Gen: genC28s, Run: runC14s}) }
+
+func genC28s(rng *rand.Rand, tier string, w *bufio.Writer) {
+	rounds, gor, phases, iters, nkeys := 6, 6, 4, 25, 4
+	if tier == "thorough" {
+		rounds, gor, phases, iters, nkeys = 40, 10, 6, 80, 6
+	}
+	for r := 0; r < rounds; r++ {
+		var mu sync.Mutex
+		var log []string
+		queues := map[any]int{}
+		keyOf := map[any]string{}
+		last := map[any][]string{}
+		ids := map[string]int{}
+		lk := lock.New()
+		qn := func(q any) int {
+			k, ok := queues[q]
+			if !ok {
+				k = len(queues)
+				queues[q] = k
+			}
+			return k
+		}
+		nums := func(l []string) string {
+			var o []string
+			for _, id := range l {
+				o = append(o, strconv.Itoa(ids[id]))
+			}
+			return "[" + strings.Join(o, ",") + "]"
+		}
+		verifhook.SetHandler(func(name string, args ...any) {
+			if !strings.HasPrefix(name, "lock.") || len(args) < 2 {
+				return
+			}
+			mu.Lock()
+			defer mu.Unlock()
+			q := args[0]
+			switch name {
+			case "lock.key":
+				keyOf[q], _ = args[1].(string)
+			case "lock.contents":
+				last[q], _ = args[1].([]string)
+			case "lock.enq":
+				id, _ := args[1].(string)
+				g, _ := args[2].(bool)
+				ids[id] = len(ids) + 1
+				log = append(log, fmt.Sprintf("enq %s %d %d %d c=%s", keyOf[q], qn(q), ids[id], c14b(g), nums(last[q])))
+			case "lock.enq.dead":
+				log = append(log, fmt.Sprintf("deadq %s %d", keyOf[q], qn(q)))
+			case "lock.dead":
+				id, _ := args[1].(string)
+				log = append(log, fmt.Sprintf("dead %s %d %d", keyOf[q], qn(q), ids[id]))
+			case "lock.rm":
+				id, _ := args[1].(string)
+				f, _ := args[2].(bool)
+				k, known := keyOf[q]
+				if !known {
+					k = "-"
+				}
+				c := "-"
+				if f {
+					c = nums(last[q])
+				}
+				log = append(log, fmt.Sprintf("rm %s %d %d %d c=%s", k, qn(q), ids[id], c14b(f), c))
+			}
+		})
+		type heldLock struct{ key, id string }
+		carry := make([][]heldLock, gor)
+		hung := false
+		for ph := 0; ph < phases && !hung; ph++ {
+			var wg sync.WaitGroup
+			for g := 0; g < gor; g++ {
+				wg.Add(1)
+				seed := rng.Int63()
+				go func(g int, seed int64) {
+					defer wg.Done()
+					lr := rand.New(rand.NewSource(seed))
+					for _, h := range carry[g] {
+						_ = lk.Unlock(h.key, h.id)
+					}
+					carry[g] = nil
+					for i := 0; i < iters; i++ {
+						key := strconv.Itoa(lr.Intn(nkeys))
+						// (every wait is bounded: a key may be held across the phase's end by another goroutine)
+						ctx, cancel := context.WithTimeout(context.Background(), time.Duration(2000+lr.Intn(4000))*time.Microsecond)
+						switch lr.Intn(6) {
+						case 0:
+							cancel() // already cancelled
+						case 1:
+							cancel()
+							ctx, cancel = context.WithTimeout(context.Background(), time.Duration(100+lr.Intn(1500))*time.Microsecond)
+						}
+						ttl := 5 * time.Second
+						short := lr.Intn(4) == 0
+						if short {
+							ttl = time.Duration(lr.Intn(1500)-100) * time.Microsecond // sometimes ≤ 0
+						}
+						id, err := lk.Lock(ctx, key, ttl)
+						cancel()
+						if err != nil {
+							continue
+						}
+						if i == iters-1 && !short && lr.Intn(3) == 0 {
+							carry[g] = append(carry[g], heldLock{key, id}) // held across the quiescent point
+							break
+						}
+						if lr.Intn(3) == 0 {
+							time.Sleep(time.Duration(lr.Intn(300)) * time.Microsecond)
+						}
+						if !short || lr.Intn(2) == 0 {
+							_ = lk.Unlock(key, id)
+						} else {
+							time.Sleep(ttl + 300*time.Microsecond)
+						}
+						if lr.Intn(8) == 0 {
+							_ = lk.Unlock(strconv.Itoa(lr.Intn(nkeys)), id) // stale or foreign
+						}
+					}
+				}(g, seed)
+			}
+			done := make(chan struct{})
+			go func() { wg.Wait(); close(done) }()
+			select {
+			case <-done:
+			case <-time.After(20 * time.Second):
+				hung = true
+			}
+			if hung {
+				break
+			}
+			// quiescent point: no hook event may arrive while the map and the queues are counted
+			for try := 0; try < 200; try++ {
+				time.Sleep(3 * time.Millisecond)
+				mu.Lock()
+				before := len(log)
+				mu.Unlock()
+				entries, queued := lock.VerifQueueCount(lk), 0
+				for k := 0; k < nkeys; k++ {
+					l, _, _ := lock.VerifSnapshot(lk, strconv.Itoa(k))
+					queued += len(l)
+				}
+				mu.Lock()
+				if len(log) == before {
+					log = append(log, fmt.Sprintf("count %d %d", entries, queued))
+					mu.Unlock()
+					break
+				}
+				mu.Unlock()
+			}
+		}
+		for g := range carry {
+			for _, h := range carry[g] {
+				_ = lk.Unlock(h.key, h.id)
+			}
+		}
+		time.Sleep(3 * time.Millisecond)
+		mu.Lock()
+		log = append(log, fmt.Sprintf("count %d 0", lock.VerifQueueCount(lk)))
+		mu.Unlock()
+		verifhook.SetHandler(nil)
+		fmt.Fprintf(w, "case %d\n", r)
+		mu.Lock()
+		for _, l := range log {
+			fmt.Fprintln(w, l)
+		}
+		if hung {
+			fmt.Fprintln(w, "hang")
+		}
+		mu.Unlock()
+	}
+}
+
+func c14b(b bool) int {
+	if b {
+		return 1
+	}
+	return 0
 }
